@@ -37,7 +37,7 @@ def known_functions():
         import json
         import pathlib
         f = pathlib.Path(__file__).resolve().parent.parent / "baseline" / "functions.json"
-        _INVENTORY = set(json.load(open(f))) if f.exists() else None
+        _INVENTORY = set(json.loads(f.read_text())) if f.exists() else None
         if _INVENTORY is None:
             _INVENTORY = False
     return _INVENTORY
